@@ -41,6 +41,8 @@ class Ops:
         self.slots = set()         # locals holding a slot value (an item or _MISSING)
         self.opt = opt_param       # optional int parameter (option Z)
         self.key = key_param       # item parameter (K)
+        self.klists = set()        # locals holding a list of items
+        self.kwargs = None         # name of the **kwargs parameter handed on to sorted()
         self.n = 0
 
     def is_map(self, e):
@@ -61,6 +63,9 @@ class Ops:
         if isinstance(e, ast.Call) and isinstance(e.func, ast.Name) and e.func.id == "len" and len(e.args) == 1 \
                 and not e.keywords and self.is_map(e.args[0]):
             return "(zlen (imap self))"
+        if isinstance(e, ast.Call) and isinstance(e.func, ast.Name) and e.func.id == "len" and len(e.args) == 1 \
+                and not e.keywords and self.is_items(e.args[0]):
+            return "(zlen (items self))"
         _fail(e, "integer expression")
 
     def cond(self, e):
@@ -72,6 +77,12 @@ class Ops:
                 return "(opt_is_none %s)" % self.opt
             if isinstance(op, ast.Eq):
                 return "(opt_eqb %s %s)" % (self.opt, self.int(r))
+        if isinstance(e, ast.Compare) and len(e.ops) == 1 and isinstance(e.ops[0], ast.NotIn) \
+                and isinstance(e.left, ast.Name) and e.left.id == self.key and self.is_map(e.comparators[0]):
+            return "(negb (d_mem (imap self) %s))" % self.key
+        if isinstance(e, ast.Compare) and len(e.ops) == 1 and isinstance(e.ops[0], ast.Eq) \
+                and isinstance(e.left, ast.Name) and e.left.id in self.klists and self.is_items(e.comparators[0]):
+            return "(py_klist_eq_slots %s (items self))" % e.left.id
         _fail(e, "condition")
 
     def fresh(self, base):
@@ -86,6 +97,8 @@ class Ops:
         k = lambda: self.block(rest, ind)                      # noqa: E731  (continuation)
         if isinstance(s, ast.Expr) and isinstance(s.value, ast.Constant) and isinstance(s.value.value, str):
             return k()
+        if isinstance(s, ast.Return) and s.value is None:
+            return sp + "(self, Ok RNone)\n"          # whatever follows in the enclosing block is skipped
         if isinstance(s, ast.Return):
             if rest:
                 _fail(s, "statements after return")
@@ -99,7 +112,7 @@ class Ops:
             b = self.block(s.orelse + rest, ind + "  ")
             self.alias, self.ints, self.slots = saved
             return sp + "if %s then (\n%s%s) else (\n%s%s)\n" % (self.cond(s.test), a, sp, b, sp)
-        if isinstance(s, ast.Try):
+        if isinstance(s, ast.Try) and s.body and isinstance(s.body[0], ast.Assign):
             # try: n = self.item_index_map.pop(P)  except KeyError: raise KeyError(P)
             ok = (len(s.body) == 1 and len(s.handlers) == 1 and not s.orelse and not s.finalbody
                   and isinstance(s.body[0], ast.Assign) and len(s.body[0].targets) == 1
@@ -126,8 +139,60 @@ class Ops:
                     + sp + "  let self := set_imap self %s in\n" % m
                     + self.block(rest, ind + "  ")
                     + sp + "end\n")
+        # try: self.remove(P)  except KeyError: pass
+        if isinstance(s, ast.Try) and len(s.body) == 1 and isinstance(s.body[0], ast.Expr) \
+                and isinstance(s.body[0].value, ast.Call) and _is_self_attr(s.body[0].value.func, "remove"):
+            c, hs = s.body[0].value, s.handlers
+            if not (len(c.args) == 1 and not c.keywords and isinstance(c.args[0], ast.Name) and c.args[0].id == self.key
+                    and len(hs) == 1 and not s.orelse and not s.finalbody and isinstance(hs[0].type, ast.Name)
+                    and hs[0].type.id == "KeyError" and len(hs[0].body) == 1 and isinstance(hs[0].body[0], ast.Pass)):
+                _fail(s, "try statement")
+            r = self.fresh("r")
+            return (sp + "let '(self, %s) := src_remove self %s in\n" % (r, self.key)
+                    + sp + "match %s with\n" % r
+                    + sp + "| Raise KeyError => (\n" + self.block(rest, ind + "  ") + sp + ")\n"
+                    + sp + "| Raise _e => (self, Raise _e)\n"
+                    + sp + "| Ok _ => (\n" + self.block(rest, ind + "  ") + sp + ")\n"
+                    + sp + "end\n")
+        # for i, item in enumerate(self.item_list): self.item_index_map[item] = i
+        if isinstance(s, ast.For):
+            ok = (isinstance(s.target, ast.Tuple) and len(s.target.elts) == 2 and all(isinstance(x, ast.Name) for x in s.target.elts)
+                  and isinstance(s.iter, ast.Call) and isinstance(s.iter.func, ast.Name) and s.iter.func.id == "enumerate"
+                  and len(s.iter.args) == 1 and not s.iter.keywords and self.is_items(s.iter.args[0])
+                  and not s.orelse and len(s.body) == 1 and isinstance(s.body[0], ast.Assign)
+                  and len(s.body[0].targets) == 1 and isinstance(s.body[0].targets[0], ast.Subscript)
+                  and self.is_map(s.body[0].targets[0].value))
+            if ok:
+                i, item = s.target.elts[0].id, s.target.elts[1].id
+                tgt, val = s.body[0].targets[0], s.body[0].value
+                ok = isinstance(tgt.slice, ast.Name) and tgt.slice.id == item and isinstance(val, ast.Name) and val.id == i
+            if not ok:
+                _fail(s, "for loop")
+            return sp + "let self := set_imap self (py_remap_slots (imap self) (items self)) in\n" + k()
         if isinstance(s, ast.Assign) and len(s.targets) == 1:
             t, v = s.targets[0], s.value
+            # X = list(reversed(self))
+            if isinstance(t, ast.Name) and isinstance(v, ast.Call) and isinstance(v.func, ast.Name) and v.func.id == "list" \
+                    and len(v.args) == 1 and not v.keywords and isinstance(v.args[0], ast.Call) \
+                    and isinstance(v.args[0].func, ast.Name) and v.args[0].func.id == "reversed" \
+                    and len(v.args[0].args) == 1 and isinstance(v.args[0].args[0], ast.Name) and v.args[0].args[0].id == "self":
+                self.klists.add(t.id)
+                return sp + "let %s := rev (m_live self) in\n" % t.id + k()
+            # X = sorted(self, **kwargs)
+            if isinstance(t, ast.Name) and isinstance(v, ast.Call) and isinstance(v.func, ast.Name) and v.func.id == "sorted" \
+                    and len(v.args) == 1 and isinstance(v.args[0], ast.Name) and v.args[0].id == "self" \
+                    and len(v.keywords) == 1 and v.keywords[0].arg is None and isinstance(v.keywords[0].value, ast.Name) \
+                    and v.keywords[0].value.id == self.kwargs:
+                self.klists.add(t.id)
+                return sp + "let %s := sorted_fn (m_live self) in\n" % t.id + k()
+            # self.item_list[:] = X
+            if isinstance(t, ast.Subscript) and self.is_items(t.value) and isinstance(t.slice, ast.Slice) \
+                    and t.slice.lower is None and t.slice.upper is None and t.slice.step is None \
+                    and isinstance(v, ast.Name) and v.id in self.klists:
+                return sp + "let self := set_items self (map Some %s) in\n" % v.id + k()
+            # self.item_index_map[P] = <int>
+            if isinstance(t, ast.Subscript) and self.is_map(t.value) and isinstance(t.slice, ast.Name) and t.slice.id == self.key:
+                return sp + "let self := set_imap self (d_set (imap self) %s (Z.to_nat %s)) in\n" % (self.key, self.int(v)) + k()
             # alias
             if isinstance(t, ast.Name) and (_is_self_attr(v, "item_index_map") or _is_self_attr(v, "item_list")):
                 self.alias[t.id] = v.attr
@@ -175,8 +240,22 @@ class Ops:
                     + sp + "  let self := set_imap self %s in\n" % m
                     + self.block(rest, ind + "  ")
                     + sp + "end\n")
+        if isinstance(s, ast.Delete) and len(s.targets) == 1 and isinstance(s.targets[0], ast.Subscript) \
+                and isinstance(s.targets[0].slice, ast.Slice) and s.targets[0].slice.lower is None \
+                and s.targets[0].slice.upper is None and s.targets[0].slice.step is None:
+            tv = s.targets[0].value
+            if _is_self_attr(tv, "dead_indices"):
+                return sp + "let self := set_dead self [] in\n" + k()
+            if self.is_items(tv):
+                return sp + "let self := set_items self [] in\n" + k()
+            _fail(s, "del x[:]")
         if isinstance(s, ast.Expr) and isinstance(s.value, ast.Call) and not s.value.keywords:
             c = s.value
+            if isinstance(c.func, ast.Attribute) and c.func.attr == "clear" and self.is_map(c.func.value) and not c.args:
+                return sp + "let self := set_imap self [] in\n" + k()
+            if isinstance(c.func, ast.Attribute) and c.func.attr == "append" and self.is_items(c.func.value) \
+                    and len(c.args) == 1 and isinstance(c.args[0], ast.Name) and c.args[0].id == self.key:
+                return sp + "let self := set_items self (items self ++ [Some %s]) in\n" % self.key + k()
             if _is_self_attr(c.func, "_cull") and not c.args:
                 return sp + "let self := src_cull self in\n" + k()
             if _is_self_attr(c.func, "_add_dead") and len(c.args) == 1:
@@ -191,12 +270,12 @@ def _method(tree, name):
     fn = [n for n in cls[0].body if isinstance(n, ast.FunctionDef) and n.name == name]
     if len(fn) != 1:
         raise Unsupported("IndexedSet.%s not found" % name)
-    if fn[0].decorator_list or fn[0].args.vararg or fn[0].args.kwarg or fn[0].args.kwonlyargs:
+    if fn[0].decorator_list or fn[0].args.vararg or fn[0].args.kwonlyargs or (fn[0].args.kwarg and name != "sort"):
         raise Unsupported("unexpected signature of %s" % name)
     return fn[0]
 
 
-HEADER = """(* GENERATED on every run by harness/translators/c11_ops.py from %s (IndexedSet.remove, IndexedSet.pop); do not edit. *)
+HEADER = """(* GENERATED on every run by harness/translators/c11_ops.py from %s (IndexedSet.remove, pop, add, discard, clear, reverse, sort); do not edit. *)
 From Boltons Require Import Lib.Prelude Lib.PySrc Lib.C11_Iface Model.C11_Model Lib.C11_PyImp Gen.C11_Src Gen.C11_Cull.
 """
 
@@ -215,5 +294,23 @@ def generate(repo):
     text += "Definition src_remove (self : iset) (item : K) : iset * res ret :=\n" + \
         Ops(key_param="item").block(rm.body, "  ").rstrip("\n") + ".\n\n"
     text += "Definition src_pop (self : iset) (index : option Z) : iset * res ret :=\n" + \
-        Ops(opt_param="index").block(pp.body, "  ").rstrip("\n") + ".\n"
+        Ops(opt_param="index").block(pp.body, "  ").rstrip("\n") + ".\n\n"
+
+    def simple_method(name, params, coq_params, **kw):
+        fn = _method(tree, name)
+        if [a.arg for a in fn.args.args] != params or fn.args.defaults:
+            raise Unsupported("unexpected signature of %s" % name)
+        o = Ops(**kw)
+        if name == "sort":
+            if fn.args.kwarg is None:
+                raise Unsupported("sort has no **kwargs")
+            o.kwargs = fn.args.kwarg.arg
+        return "Definition src_%s (self : iset)%s : iset * res ret :=\n" % (name, coq_params) + \
+            o.block(fn.body, "  ").rstrip("\n") + ".\n\n"
+    text += simple_method("add", ["self", "item"], " (item : K)", key_param="item")
+    text += simple_method("discard", ["self", "item"], " (item : K)", key_param="item")
+    text += simple_method("clear", ["self"], "")
+    text += simple_method("reverse", ["self"], "")
+    # sorted(self, **kwargs) is an input of the generated function: any function from the items to a list of items
+    text += simple_method("sort", ["self"], " (sorted_fn : list K -> list K)")
     return {"C11_Ops": text}
